@@ -34,6 +34,7 @@ pub mod c09;
 pub mod c09f;
 pub mod c10;
 pub mod c13;
+pub mod c13n;
 pub mod c19;
 #[cfg(feature = "facades")]
 pub mod c20;
@@ -69,6 +70,7 @@ pub fn registry() -> Vec<(&'static str, fn())> {
     v.extend_from_slice(c10::en::LIST);
     v.extend_from_slice(c13::LIST);
     v.extend_from_slice(c13::fl::LIST);
+    v.extend_from_slice(c13n::LIST);
     #[cfg(feature = "facades")]
     { v.extend_from_slice(c20::LIST); v.extend_from_slice(c20::dz::LIST); v.extend_from_slice(c20::d::LIST); v.extend_from_slice(c20::zz::LIST); }
     #[cfg(feature = "codecs")]
